@@ -81,7 +81,16 @@ def handle (c obs : String) : String × Bool × String :=
     | some [o], [r] =>
       let (ok, why) := specRun p r o
       (model, ok, why)
-    | some _, _ => (model, true, "")   -- histories are C18's business
+    | some os, _ =>
+      -- histories are C18's business - except over `srcv` sources, whose contents change between the materialisations:
+      -- every fault-free run must deliver the list-level meaning of the contents it ran over (whatever the runs before did)
+      if rs.all (fun r => r.setSrcs.isEmpty) || os.length != rs.length then (model, true, "") else
+      match ((rs.zip os).filterMap (fun (r, o) =>
+          match Spec.eval (pipeAt p r) with
+          | some _ => let v := specRun (pipeAt p r) r o; if v.1 then none else some v.2
+          | none => none)).head? with
+      | none => (model, true, "")
+      | some why => (model, false, why ++ " (a run over changed contents)")
     | none, _ => (model, false, "unparsable observation")
 
 end ShpanVerif.Drive.C04
